@@ -100,6 +100,14 @@ pub fn run(args: &Args) {
         };
         t.emit(json!({"event":"CtRT","text":text,"parse_ok":ok,"same":same}));
     }
+    // the same from a build of the library without any optional feature (events produced by harness-min)
+    if let Some(f) = args.get("extra") {
+        for line in std::fs::read_to_string(f).unwrap_or_default().lines() {
+            if let Ok(v) = serde_json::from_str::<serde_json::Value>(line) {
+                if v.is_object() { t.emit(v); }
+            }
+        }
+    }
     // no-panic family: arbitrary text through every parser
     let pool: Vec<char> = "a1-.:~^ _/\\\0é日\u{1F600}x86noarch0".chars().collect();
     let nrand = args.num("random", 20000);
